@@ -257,7 +257,7 @@ func kindTable(p *pkgInfo) []string {
 func emitConsts(p *pkgInfo) string {
 	var b strings.Builder
 	b.WriteString("/- GENERATED by extract from /repo's current source: do not edit. -/\nnamespace Rapid.Generated\n\n")
-	for _, c := range []string{"small", "invalidChecksMult", "exampleMaxTries", "validActionTries"} {
+	for _, c := range []string{"small", "invalidChecksMult", "exampleMaxTries", "validActionTries", "tracebackLen"} {
 		fmt.Fprintf(&b, "def c_%s : Nat := %s\n", c, natOf(p.consts[c]))
 	}
 	for _, c := range []string{"rapidVersion", "failfileTmpPattern", "tracebackStop", "noValidActionsMsg",
